@@ -320,6 +320,8 @@ def verify_function(qualname, contract, schema, timeout_ms=10000, contracts=None
         # cover (vacuity guard)
         it.oblige("cover", "cover/%s" % pid, False, None, "path assumptions must be satisfiable (expected: refuted)")
         rep.assumptions |= it.assumptions_log
+        for ob in it.obligations:
+            ob.replay_ctx = (fi, old_env, it._mro)
         return it.obligations, out
 
     try:
